@@ -202,6 +202,11 @@ def run(tier):
         lvl1 = [c for c in cases if c["lvl"] <= 1]
         s1 = max(1, len(lvl1) // 400)
         cases = lvl1[common.seed() % s1::s1] + deep[common.seed() % step::step]
+    if tier != "quick" and len(cases) > 12000:      # ~18 cases/s: keep the thorough tier near ten minutes
+        deep = [c for c in cases if c["lvl"] > 1]
+        lvl1 = [c for c in cases if c["lvl"] <= 1]
+        step = max(1, len(deep) // max(1, 12000 - len(lvl1)))
+        cases = lvl1 + deep[common.seed() % step::step]
     res = common.pmap(observe, cases, chunksize=4)
     viol = [v for r in res for v in r]
     nontriv = {json.dumps(c["t"], sort_keys=True) for c in cases if opsfam.nontrivial(c)}
